@@ -9,7 +9,7 @@ class Runner(hist.HistoryRunner):
     def check_cmd(self, kind, targets, cwd, res, ok, ex, calls, args, exits, pre, nested, ctx):
         m = self.m
         ev = self.out.events
-        for c in ("mkpath", "rmpath"):
+        for c in ("mkpath", "rmpath", "mkpath-dir"):
             if c in self.pending_changes:
                 self.out.nontrivial = True
                 ev["c14:command-after-" + c] += 1
@@ -37,7 +37,8 @@ class Spec:
             "equals the model's (ifcreate on an existing path fails the script), no target twice in one run. "
             "Non-trivial = a command that follows creation/deletion of a watched path, or an always-target with >= 2 "
             "dependents executed in one run, or an ifcreate error; distinct = SHA-1 of the case JSON.")
-    assumptions = ["-j1 here; parallel clause in the gated tier", "watched paths are plain files created/removed between commands"]
+    assumptions = ["-j1 here; parallel clause in the gated tier",
+                   "watched paths are created (as plain files or, 30%, as directories) and removed between commands"]
     checks = {"execset", "calls", "once", "content"}
 
     def cases(self, tier):
@@ -45,6 +46,7 @@ class Spec:
 
     def strategy(self, tier):
         o = {"p_failflag": 5, "p_csum": 25, "p_always": 35, "p_ifc": 45, "p_ifcreate_raw": 10, "max_cmd_targets": 2,
+             "p_mkdir": 30,
              "weights": {"cmd": 45, "redo": 5, "mkpath": 16, "rmpath": 12, "edit": 8, "ext": 5, "failflag": 1,
                          "setdo": 3, "adddo": 1, "rmdo": 1, "rmtarget": 3, "touch": 1}}
         if tier == "thorough":
